@@ -1,7 +1,5 @@
-import json
 from mindsdb_sql.parser.ast.base import ASTNode
-from mindsdb_sql.parser.utils import indent
-from mindsdb_sql.parser.ast.select.operation import Object
+from mindsdb_sql.parser.utils import indent, kw_parameters_to_string
 
 class Select(ASTNode):
 
@@ -140,23 +138,7 @@ class Select(ASTNode):
             out_str += f' {self.mode}'
 
         if self.using is not None:
-            from mindsdb_sql.parser.ast.select.identifier import Identifier
-
-            using_ar = []
-            for key, value in self.using.items():
-                if isinstance(value, Object):
-                    args = [
-                        f'{k}={json.dumps(v)}'
-                        for k, v in value.params.items()
-                    ]
-                    args_str = ', '.join(args)
-                    value = f'{value.type}({args_str})'
-                else:
-                    value = json.dumps(value)
-
-                using_ar.append(f'{Identifier(key).to_string()}={value}')
-
-            out_str += f' USING ' + ', '.join(using_ar)
+            out_str += ' USING ' + kw_parameters_to_string(self.using)
 
         return out_str
 
